@@ -131,6 +131,9 @@ def convert(
         else:
             to = Path(outname).suffix
 
+    # The language names are accepted as well as the file suffixes
+    to = {"c": ".c", "py": ".py", "python": ".py"}.get(to, to)
+
     if to in {".c", ".h", "c"}:
         gotran2c.main(
             fname=fname,
